@@ -24,6 +24,9 @@ func FuzzReaders(f *testing.F) {
 			return
 		}
 		c := &Case{Reader: fuzzReaders[int(sel)%len(fuzzReaders)], Data: d, Plain: len(d), ZC: zc, FaultAt: -1, Source: "native-fuzz"}
+		if declaredSnap(c) > 4<<20 {
+			return // a forged snap length licenses allocations of that size; tens of megabytes per read only starve the fuzz workers
+		}
 		fl, _ := runCase(c)
 		S.Check(t, "TestStreams", c, fl)
 	})
